@@ -2,6 +2,8 @@ SPECIFICATION Spec
 CONSTANTS
   MaxDims = 2
   Lens = {2, 3, 4, 5}
+  DestSet = {"stdout", "fresh", "stale", "inplace"}
+  AB_KeepOldTail = FALSE
   AnyOrder = FALSE
   ShapeSet <- MCShapeSet
 INVARIANTS
@@ -9,5 +11,6 @@ INVARIANTS
   MaskExact
   NormalizedSumsToOne
   NoOptionsIsIdentity
+  DestinationHoldsOnlyResult
   Emit
 CHECK_DEADLOCK FALSE
